@@ -16,11 +16,17 @@
   counterparty the submitted proof bytes were built for (`readKey`), at which height (`builtAt`), whether
   it corrupted the bytes (`intact`), and what the counterparty's store really holds under that key at
   that height (`provenValue`, read directly from the height-pinned store, not through the proof).  The
-  model computes the key the handler derives from the message (Keys.v1Key / v2Key) and the value it
-  derives from the message (Commit.commitV1 / commitV2 / commitAck* over the hash `H`, SHA-256 in the
-  driver) and *defines* "the proof verifies" as: intact ∧ built for the message's proof height ∧
-  readKey = derived key ∧ provenValue = some derived value   (`ProofFacts.proves`).
-  If the code verified under another key, or another value, the two streams differ.
+  model computes the key the handler derives from the message (Keys.v1Key / v2Key), the merkle path it
+  builds from it (v1: [connection.Counterparty.Prefix, key]; v2: the key appended to the last element of
+  the registered counterparty MerklePrefix) and the value it derives from the message (Commit.commitV1 /
+  commitV2 / commitAck* over the hash `H`, SHA-256 in the driver) and *defines* "the proof verifies" as:
+  intact ∧ built for the message's proof height ∧ [store, readKey] = derived path ∧
+  provenValue = some derived value   (`ProofFacts.proves`).
+  If the code verified under another key, another prefix, or another value, the two streams differ.
+
+  Not modelled (the harness keeps them fixed): application callbacks fail or acknowledge asynchronously
+  (the receive transaction then also depends on WriteAcknowledgement), v2 aliases, payloads above
+  MaximumPayloadsSize in total.
 -/
 import IbcVerif.Model.Height
 import IbcVerif.Model.Commit
